@@ -173,18 +173,30 @@ func (c *vCfg) provision(ctx caddy.Context) error {
 	return m.Provision(ctx)
 }
 
+// keys are printed as indices into the table that coq/corr/OvpnDnsCorr.v carries (vKeyTab; tied by the KKeyTab case)
+var vKeyTab [][]byte
+
+func vKeyIdx(b []byte) int {
+	for i, k := range vKeyTab {
+		if bytes.Equal(k, b) {
+			return i
+		}
+	}
+	panic("key not in table")
+}
+
 func (c *vCfg) coq() string {
 	gk := "None"
 	if c.gk != nil {
-		gk = fmt.Sprintf("(Some (%s,%s,%s))", cBool(c.dir == "bidi"), cBool(c.dir == "inverse"), cHex(c.gk))
+		gk = fmt.Sprintf("(Some (%s,%s,%d))", cBool(c.dir == "bidi"), cBool(c.dir == "inverse"), vKeyIdx(c.gk))
 	}
 	sk := "None"
 	if c.sk != nil {
-		sk = "(Some " + cHex(c.sk) + ")"
+		sk = fmt.Sprintf("(Some %d)", vKeyIdx(c.sk))
 	}
 	cks := make([]string, len(c.cks))
 	for i, ck := range c.cks {
-		cks[i] = fmt.Sprintf("(%s,%s,%s)", cHex(ck.kc), cHex(ck.wkc[:32]), cHex(ck.wkc[32:len(ck.wkc)-2]))
+		cks[i] = fmt.Sprintf("(%d,%d)", vKeyIdx(ck.kc), vKeyIdx(ck.wkc))
 	}
 	return fmt.Sprintf("(OC %s %s %s %s %s %s %s %s [%s] %s)", cBool(c.plain), cBool(c.auth), cBool(c.crypt), cBool(c.c2),
 		cBool(c.igc), cBool(c.igt), gk, cZ(int64(c.ad)), strings.Join(cks, ";"), sk)
@@ -451,6 +463,7 @@ type vOvpn struct {
 	sk   []byte
 	seen map[string]bool
 	nMatch int
+	thin   uint64
 }
 
 func (e *vOvpn) want(p string) bool { return e.prop == "" || e.prop == p }
@@ -467,7 +480,23 @@ func (e *vOvpn) match(c *vCfg, ld int, tcp bool, in []byte, cls string, nt bool)
 	ld2 := vDigestIdx(c.m.lastDigest)
 	e.nMatch++
 	key := fmt.Sprintf("%s|%d|%v|%x", c.name, ld, tcp, in)
-	if !e.seen[key] {
+	// correspondence cases are sampled (deterministically, by a hash of the case) so that the in-Coq evaluation
+	// stays short: long inputs are sampled more thinly, matches less thinly; the oracles see every evaluation
+	mod := uint64(5 + len(in)/16)
+	if vThorough() {
+		mod = uint64(1 + len(in)/300)
+	}
+	if r.code == vYes || r.code == vPanic {
+		mod = (mod + 1) / 2
+	}
+	if e.thin > 1 && !vThorough() {
+		mod *= e.thin
+	}
+	hsh := uint64(14695981039346656037)
+	for i := 0; i < len(key); i++ {
+		hsh = (hsh ^ uint64(key[i])) * 1099511628211
+	}
+	if !e.seen[key] && (hsh>>17)%mod == 0 {
 		e.seen[key] = true
 		t := &vTables{}
 		if body, hb, ok := vBodyOf(tcp, in); ok {
@@ -700,7 +729,7 @@ func TestVerifMovpn(t *testing.T) {
 	e.gk, e.sk = kr.Bytes(256), kr.Bytes(128)
 	gk2 := kr.Bytes(256)
 	kc1, kc2, kc3, kc4 := kr.Bytes(256), kr.Bytes(256), kr.Bytes(256), kr.Bytes(256)
-	ts8 := vCat([]byte{1}, vBE64(uint64(time.Now().Unix())))
+	ts8 := vCat([]byte{1}, vBE64(1700000000))
 	ck1 := vCK{kc1, vWrap(e.sk, kc1, nil)}
 	ck2 := vCK{kc2, vWrap(e.sk, kc2, ts8)}
 	ck3 := vCK{kc3, vWrap(e.sk, kc3, vCat([]byte{0}, []byte("user-7")))}
@@ -708,6 +737,14 @@ func TestVerifMovpn(t *testing.T) {
 	sk2 := kr.Bytes(128)
 	kcForeign := kr.Bytes(256)
 	ckForeign := vCK{kcForeign, vWrap(sk2, kcForeign, ts8)}
+	vKeyTab = [][]byte{e.gk, e.sk, ck1.kc, ck1.wkc, ck2.kc, ck2.wkc, ck3.kc, ck3.wkc}
+	{
+		hs := make([]string, len(vKeyTab))
+		for i, k := range vKeyTab {
+			hs[i] = cHex(k)
+		}
+		out.Case("KKeyTab ["+strings.Join(hs, ";")+"]", "keytab", true, nil)
+	}
 	all := func(name string) *vCfg { return &vCfg{name: name, plain: true, auth: true, crypt: true, c2: true, ad: -1} }
 	cfgs := []*vCfg{
 		all("default"),
@@ -884,6 +921,7 @@ func TestVerifMovpn(t *testing.T) {
 	}
 
 	if e.want("C06") {
+		e.thin = 12
 		streams := 0
 		for _, c := range []*vCfg{byName["default"], byName["ignore_ts"], byName["all+keys"], byName["auth+key"], byName["crypt+key"],
 			byName["crypt2+server"], byName["crypt2+clients"], byName["all+keys+ignore_crypto"]} {
@@ -909,6 +947,7 @@ func TestVerifMovpn(t *testing.T) {
 			}
 		}
 		out.Stat("c06_streams", streams)
+		e.thin = 1
 	}
 
 	if e.want("C04") {
